@@ -199,7 +199,8 @@ pub fn c06_q_partial_then_frame() {
         i += 1;
     }
     crate::show!("C06 k={} frame={:#06x} got={:?}", k, w, last);
-    assert!(last == ref_frame(w).map(Some), "C06: frame after clear() decoded differently");
+    // C06 fixes no error value: the yardstick is whole-word decoding by the real code (C05 owns the rule)
+    assert!(last == Ps2Decoder::new().add_word(w).map(Some), "C06: frame after clear() decoded differently from whole-word decoding");
     kani::cover!(matches!(last, Ok(Some(_))));
 }
 
@@ -242,7 +243,7 @@ pub fn c06_t_two_frames() {
         n += 1;
     }
     crate::show!("C06 two frames: second={:#06x} got={:?}", w, last);
-    assert!(last == ref_frame(w).map(Some), "C06: second frame depends on what preceded it");
+    assert!(last == Ps2Decoder::new().add_word(w).map(Some), "C06: second frame depends on what preceded it");
     assert!(d == Ps2Decoder::new());
     kani::cover!(matches!(last, Ok(Some(_))) && do_clear);
 }
@@ -277,7 +278,7 @@ pub fn c06_t_keyboard_two_frames() {
         n += 1;
     }
     crate::show!("C06 keyboard: k={} frame={:#06x} got={:?}", k, w, last);
-    match ref_frame(w) {
+    match Ps2Decoder::new().add_word(w) {
         Err(e) => assert!(last == Err(e)),
         Ok(b) => {
             let mut s = ScancodeSet1::new();
@@ -308,7 +309,7 @@ pub fn c06_t_three_frames() {
             n += 1;
         }
         crate::show!("C06 three frames: frame #{}={:#06x} got={:?}", f, w, last);
-        assert!(last == ref_frame(w).map(Some), "C06: a later frame depends on the frames before it");
+        assert!(last == Ps2Decoder::new().add_word(w).map(Some), "C06: a later frame depends on the frames before it");
         if kani::any() {
             d.clear();
         }
